@@ -24,6 +24,7 @@ class HCfg:
     length: int = 3
     flavours: str = "s"
     deepcopy: bool = True
+    twin: bool = False  # reachability twin: the harness ends with check(False), which must come back violated
     ops: str = "all"  # C15 harness: "exec" restricts the alphabet to executor operations and plain calls
 
 
@@ -239,6 +240,8 @@ def run_c11(cfg: HCfg, c: Ctx) -> Any:
                     prop="C11", data={**d2, "got": out, "want": tuple(val[l] for l in labels)})
         if setups and before_done and name not in ("setup", "setupRT"):
             c.cover("w_reuse")
+    if cfg.twin:
+        c.check(False, "reachability twin: the end of the harness is reachable", prop="TWIN")
     c.cover("states", hash(repr(data)))
     return data
 
@@ -406,6 +409,8 @@ def run_c15(cfg: HCfg, c: Ctx) -> Any:
         elif name == "config":
             d.config_from_dict({"nodes": {"n1": {"priority": 1 - 2 * (step % 2), "is_sequential": bool(step % 2)}}, "max_concurrency": 1 + step % 2})
             c.cover("w_config")
+    if cfg.twin:
+        c.check(False, "reachability twin: the end of the harness is reachable", prop="TWIN")
     c.cover("states", hash(repr(data)))
     return data
 
@@ -579,5 +584,7 @@ def run_c18(cfg: HCfg, c: Ctx) -> Any:
             os.rmdir(tmp)
         except OSError:
             pass
+    if cfg.twin:
+        c.check(False, "reachability twin: the end of the harness is reachable", prop="TWIN")
     c.cover("states", hash(repr(data)))
     return data
